@@ -24,7 +24,12 @@ LEVEL_NOTE = ("Bounded scope for the exhaustive part (files <= 5/6 lines, includ
 TECHNIQUE = "TLA+ mechanism-level spec + TLC exhaustive behaviour enumeration replayed on the implementation + TLC trace validation"
 DESIGN_REF = "DESIGN.md section 6 C09"
 
-JAVA_ENV = {"JAVA_TOOL_OPTIONS": "-Xss512m"}
+# Deep stacks for every thread of every TLC this check starts.  JAVA_TOOL_OPTIONS reaches the JVM (worker threads) but NOT the
+# launcher, which creates the MAIN thread with the default 8 MB before the JVM reads it - and TLC computes the initial states
+# (here: the scan table over all lines of a trace file, recursive operators) on the main thread: a StackOverflowError there is
+# caught and re-wrapped by every enclosing evaluation, which took 10-25 minutes or ran into the timeout, non-deterministically.
+# JDK_JAVA_OPTIONS is read by the launcher itself (JDK 9+), so the main thread gets the deep stack as well.
+JAVA_ENV = {"JAVA_TOOL_OPTIONS": "-Xss512m", "JDK_JAVA_OPTIONS": "-Xss512m"}
 
 
 def bucket(n):
@@ -505,7 +510,7 @@ def trace_validation(ctx, exe):
 
 def run(ctx):
     # the reference operators recurse once per line of a file: every TLC started by this check (also through vlib.trace) gets a deep stack
-    os.environ["JAVA_TOOL_OPTIONS"] = JAVA_ENV["JAVA_TOOL_OPTIONS"]
+    os.environ.update(JAVA_ENV)
     exe = x_c09.harness(ctx)
     t = ctx.tier
     rp = Replayer(ctx, exe)
